@@ -16,6 +16,9 @@ RULES = {
     'R5': ('r05_atomic', 'ATOMIC: Model mutators validate before they commit'),
     'R6': ('r06_fresh', 'FRESH: nothing reachable from the loaded specification is mutated'),
     'R7': ('r07_copy', 'COPY: hand-written deep copies complete, independent, re-linked'),
+    'R9': ('r09_err', 'ERR: syntax errors and dangling references surface as errors'),
+    'R12': ('r12_handlers', 'HANDLERS: every opcode has a handler in every dispatcher'),
+    'R13': ('r13_grammar', 'GRAMMAR: the visitor consumes everything the grammar can produce'),
     'R8': ('r08_codec', 'CODEC: writer and reader tables of the dict codecs agree'),
 }
 
@@ -121,17 +124,20 @@ def _p(pid, title, rules, decided, undecided, anchors=(), floor=1, extra_assumpt
 
 
 _p('C01', 'Attack-graph edges are exactly the MAL meaning of the step expressions',
-   ['R1', 'R2'],
+   ['R1', 'R2', 'R12', 'R8'],
    decided=['R1: the evaluator never removes from a list it iterates (set operators, sub-type '
             'filter, recursion through callee summaries)',
             'R2: every child link created by generation is mirrored by the converse parent link on '
-            'the same two nodes'],
+            'the same two nodes',
+            'R12: the evaluator has a case for each of the 9 expression opcodes the compiler can emit',
+            'R8vii: the child lookup name is built with the same template as the full-name index key'],
    undecided=['that the evaluator implements MAL set semantics for every nesting',
               'variable resolution by the first target type', 'transitive start-asset convention'],
-   anchors=[('R1', '_process_step_expression'), ('R2', 'AttackGraph._generate_graph')])
+   anchors=[('R1', '_process_step_expression'), ('R2', 'AttackGraph._generate_graph'),
+            ('R12', '_process_step_expression'), ('R8', 'AttackGraph._generate_graph')])
 
 _p('C02', 'One node per asset x step, with attributes faithful to model and language',
-   ['R3', 'R4'],
+   ['R3', 'R4', 'R12', 'R8'],
    decided=['R3: every node entering the node list is registered in both lookup indexes and '
             'advances the id counter (and symmetrically on removal)',
             'R4: add_node honours an explicit id by an is-None test, its duplicate test checks the '
@@ -152,6 +158,18 @@ _p('C03', 'Step inheritance resolves override/extend correctly and the lookup is
               'equality of results across call orders beyond what purity implies'],
    anchors=[('R6', 'LanguageGraph._get_attacks_for_asset_type'),
             ('R3', 'LanguageGraph.regenerate_graph')], floor=5)
+
+_p('C04', 'The MAL compiler\'s output is the language the source text denotes',
+   ['R13', 'R9'],
+   decided=['R13a: every grammar rule has a visitor method (or is a documented inline rule)',
+            'R13b: children the grammar can repeat without bound are consumed in full',
+            'R13c: operator chains read the operator between each pair of operands',
+            'R13d: every rule reference / content token of a grammar rule is consumed by its visitor',
+            'R9a: included files are compiled through the same checked entry point'],
+   undecided=['precedence/associativity of the produced trees', 'field-vs-step classification by token scanning',
+              'multiplicity normalisation', 'include merge order', 'equality with malc output'],
+   anchors=[('R13', 'malVisitor.visitTtcterm'), ('R13', 'malVisitor.visitExpr'), ('R13', 'malVisitor.visitStep'),
+            ('R13', 'malVisitor.visitAssociation')], floor=40)
 
 _p('C05', 'The instance model stays coherent under any history of edits',
    ['R1', 'R2', 'R3', 'R4', 'R5'],
@@ -262,13 +280,27 @@ _p('C16', 'Graph generation is deterministic and does not disturb its inputs',
    anchors=[('R6', 'LanguageGraph._get_attacks_for_asset_type'), ('R6', 'AttackGraph._generate_graph')],
    floor=5)
 
+_p('C17', 'Malformed MAL source is rejected, never half-compiled',
+   ['R9'],
+   decided=['R9a: the parse tree reaches the visitor only under one of the accepted error idioms (raising '
+            'error listener installed before the start rule / bail strategy / tested error count); the parser '
+            'is constructed nowhere else; includes go through MalCompiler.compile'],
+   undecided=['that the ANTLR runtime reports every grammar violation to the listener (trusted)'],
+   anchors=[('R9', 'MalCompiler.compile')], floor=2)
+
 _p('C15', 'Language graph mirrors the language and over-approximates every attack graph',
-   ['R2', 'R3'],
+   ['R2', 'R3', 'R9', 'R12'],
    decided=['R2: super_assets/sub_assets and step children/parents are created pairwise (P3, P4)',
+            'R9b: lookups of super asset, association ends, sub-type, target asset and target step are '
+            'each followed by a test whose failing branch raises',
+            'R12: process_step_expression, reverse_dep_chain and DependencyChain.to_dict have a case for '
+            'every opcode / dependency kind that can be produced',
             'R3: LanguageGraph.regenerate_graph re-initialises what __init__ initialises'],
    undecided=['the over-approximation clause (relates two evaluators)',
               'static typing of step expressions'],
-   anchors=[('R2', 'LanguageGraph._generate_graph'), ('R3', 'LanguageGraph.regenerate_graph')])
+   anchors=[('R2', 'LanguageGraph._generate_graph'), ('R3', 'LanguageGraph.regenerate_graph'),
+            ('R9', 'LanguageGraph._generate_graph'), ('R12', 'LanguageGraph.process_step_expression'),
+            ('R12', 'LanguageGraph.reverse_dep_chain')])
 
 
 # --------------------------------------------------------------------------- manifest
